@@ -2,6 +2,7 @@
 import r_cloud
 import r_panic
 import r_transform
+import r_sync
 
 PROPS = {}
 
@@ -26,7 +27,7 @@ PROPS["C18"] = {
 }
 
 PROPS["C01"] = {
-    "rules": [r_transform.rule_TP1],
+    "rules": [r_transform.rule_TP1, r_sync.rule_S1, r_sync.rule_S2, r_sync.rule_S3, r_sync.rule_S9, r_sync.rule_S4, r_sync.rule_S5, r_sync.rule_S6],
     "explanation": "TR/TP1: the transform's complete decision table is extracted statically from MIR and checked exhaustively over the finite abstract input space against the documented application semantics (diamond property).",
     "not_decided": "convergence over whole histories, N replicas, batching arithmetic",
     "assumptions": [],
@@ -38,9 +39,21 @@ PROPS["C03"] = {
     "assumptions": [],
 }
 PROPS["C04"] = {
-    "rules": [r_transform.rule_CANCEL],
+    "rules": [r_transform.rule_CANCEL, r_sync.rule_T1_sync, r_sync.rule_S3, r_sync.rule_S1, r_sync.rule_S9],
     "explanation": "TR/CANCEL: identical operations cancel to (None, None).",
     "not_decided": "per-crash-point behaviour",
+    "assumptions": [],
+}
+PROPS["C02"] = {
+    "rules": [r_sync.rule_S1, r_sync.rule_S3, r_sync.rule_S7, r_sync.rule_S8, r_sync.rule_S9, r_sync.rule_S2],
+    "explanation": "SY rules on the retry arm of the sync function (which no test executes): S1 no stale re-read after the base version advanced, S2 every pending operation is in the rebased container, S3 sync_complete only when nothing is pending, S7 OutOfSync only on a repeated demand, S8 a rejection leads back to a pull, S9 accepted operations are removed.",
+    "not_decided": "termination and convergence over all interleavings of N racing clients; the server's behaviour over time",
+    "assumptions": [],
+}
+PROPS["C12"] = {
+    "rules": [r_sync.rule_N1, r_sync.rule_N2],
+    "explanation": "N1 snapshot only with nothing pending and labelled with the accepted id; N2 urgency gate table and SnapshotUrgency declaration order.",
+    "not_decided": "equality of snapshot content with the chain replay for all histories and Unicode contents",
     "assumptions": [],
 }
 # reasons shown in MANIFEST.not_applicable for properties not (yet) claimed
